@@ -916,7 +916,8 @@ def np_array_equal(ctx, a, b):
             else:
                 return False
     if any(S.is_z3(d) for d in a.shape):
-        raise Unsupported('array_equal on symbolic shapes')
+        eqs = A.elementwise(ctx, lambda x, y: S.eq(x, y), [a, b], dtype='bool')
+        return S.and_(r, _quant(ctx, eqs, None, 'all', named=True))
     for idx in itertools.product(*[range(d) for d in a.shape]):
         r = S.and_(r, S.eq(a.at(idx), b.at(idx)))
     return r
@@ -1133,9 +1134,14 @@ def np_append(ctx, a, b):
     sa, sb = a.snapshot(), b.snapshot()
     n = a.shape[0]
     dt = A.result_dtype([a.dtype, b.dtype])
-    return Arr.from_fn((S.add(n, b.shape[0]),), dt,
-                       lambda idx: S.ite(S.lt(idx[0], n), sa.at((idx[0],)), sb.at((S.sub(idx[0], n),)))
-                       if not (isinstance(n, int) and n == 0) else sb.at((idx[0],)))
+    def fn(idx):
+        if isinstance(n, int) and n == 0:
+            return sb.at((idx[0],))
+        c = S.lt(idx[0], n)
+        if isinstance(c, bool):      # concrete index: evaluate only the side that exists
+            return sa.at((idx[0],)) if c else sb.at((S.sub(idx[0], n),))
+        return S.ite(c, sa.at((idx[0],)), sb.at((S.sub(idx[0], n),)))
+    return Arr.from_fn((S.add(n, b.shape[0]),), dt, fn)
 
 
 @lib('numpy.outer')
@@ -1608,3 +1614,32 @@ def nd_min(ctx, a, axis=None):
 @lib('method:ndarray.max')
 def nd_max(ctx, a, axis=None):
     return np_max(ctx, a, axis)
+
+
+class InterpObj:
+    """scipy.interpolate.interp1d instance (abstract): remembers what it was built from."""
+
+    def __init__(self, ident, x, y, kind, fill):
+        self.ident, self.x, self.y, self.kind, self.fill = ident, x, y, kind, fill
+
+
+INTERP1D = z3.Function('interp1d_eval', z3.IntSort(), z3.RealSort(), z3.RealSort())
+
+
+@lib('scipy.interpolate.interp1d', 'abstract')
+def sp_interp1d(ctx, x, y, kind='linear', copy=True, bounds_error=None, fill_value=None, **kw):
+    o = InterpObj(ctx.fresh_int('interp1d'), arr(ctx, x), arr(ctx, y), kind, fill_value)
+    ctx.__dict__.setdefault('ghost_interp1d', []).append(o)
+    return o
+
+
+def _interp_call(ctx, o, xs):
+    f = lambda v: INTERP1D(S.z(o.ident), S.zreal(v))
+    ctx.__dict__.setdefault('ghost_interp1d_evals', []).append(o)
+    if isinstance(xs, Arr):
+        return A.elementwise(ctx, f, [xs], dtype='float')
+    if isinstance(xs, A.Gather):
+        return xs.map(f)
+    if isinstance(xs, (PyList, tuple)):
+        return A.elementwise(ctx, f, [arr(ctx, xs)], dtype='float')
+    return f(xs)
